@@ -434,10 +434,10 @@ def run(replay=None):
     if r0.violated != "BaseUnchanged":
         V.notes.append("sensitivity run without copy.deepcopy did not violate BaseUnchanged: " + str(r0.violated))
     V.assumptions += [
-        "hierarchy, literal casting and plain modification are taken as in C13/C14; zero / empty-string literals are not generated",
-        "not decided (replayed, counted unspecified): a unit given to a unitless node, conversion of whole arrays, "
+        "hierarchy, literal casting and plain modification are taken as in C13/C14; empty-string literals are not generated (0, 0.0 and false are)",
+        "not decided (replayed, counted unspecified): conversion of whole arrays, "
         "non-integral values in int nodes, an import onto an already existing name, a reference to a declared node without value",
-        "unit table restricted to none, m, cm, km, s; values are decimal (n * 10^e), so all conversions are exact in the spec",
+        "unit table restricted to none, m, cm, km, s and the custom unit [hm] = 100 m ($unit line of the program); values are decimal (n * 10^e), so all conversions are exact in the spec",
     ]
     C.cleanup(PID)
     return V.finish()
